@@ -181,7 +181,7 @@ def recipe_families(maxlen):
 
 def all_families(tier):
     fams = dict(named_families())
-    for name, f in recipe_families(2 if tier == 'quick' else 3):
+    for name, f in recipe_families(3):
         fams[name] = f
     return fams
 
@@ -248,7 +248,7 @@ def run(tier, seed):
         'exhaustive': True,
         'rule': 'every family of the grammar (named families + every wrapper recipe of length <= %d over %s) measured at '
                 'n, 2n, 4n, 8n and widths 20, 79 by counting package LINE events; non-trivial = complete 4-point series'
-                % (2 if tier == 'quick' else 3, RECIPE_ALPHABET),
+                % (3, RECIPE_ALPHABET),
         'families': len(names), 'largest_observed_doubling_ratio': maxr,
         'bound': 'steps(2n) <= %d * steps(n) + %d, first run <= %d steps' % (FACTOR, SLACK, FIRST_BUDGET),
         'limit': 'a bounded check of a growth law on enumerated families, not a proof of a polynomial bound',
